@@ -7,8 +7,8 @@ CONSTANTS
   MaxSusp = 1
   MaxOps = 7
   Waiters = {1, 2}
-  KeepAlive = FALSE
-  Deviations = {"cancel_skip_unsettled"}
+  KeepAlive = TRUE
+  Deviations = {"keepalive_precedence"}
 VIEW view
 INVARIANTS NoViolation CounterExact CounterBounded DrainsToMin RejectAfterStop NoCollateral
 PROPERTIES Monotone CancelledNeverRuns
